@@ -37,3 +37,20 @@ Theorem C08_switch : forall (A : Type) cfg (i : cres A),
   end.
 Proof. exact @deliver_switch. Qed.
 Print Assumptions C08_switch.
+
+(* ---- the code is the model (regenerated each run): Client.standard_error_management executed around an inner function that ends in each
+   possible way, under all eight switch settings (tools/symtrans.py, Gen/Fn_Decorator.v), is `deliver` ---- *)
+From UDS Require Import Gen.Fn_Decorator Proofs.Tie_decorator.
+
+Theorem C08_code_decorator : forall cfg kind a b c rp rn, with_switches cfg a b c ->
+  p_positive rp = true -> p_valid rp = true -> p_unexpected rp = false ->
+  p_positive rn = false -> p_valid rn = true -> p_unexpected rn = false ->
+  fn_decorated kind a b c = seen (deliver cfg (inner_of kind rp rn)).
+Proof. exact tie_decorated. Qed.
+Print Assumptions C08_code_decorator.
+Theorem C08_code_decorator_after_any_call : forall cfg first kind a b c rp rn, with_switches cfg a b c ->
+  p_positive rp = true -> p_valid rp = true -> p_unexpected rp = false ->
+  p_positive rn = false -> p_valid rn = true -> p_unexpected rn = false ->
+  fn_decorated_after first kind a b c = seen (deliver cfg (inner_of kind rp rn)).
+Proof. exact tie_decorated_after. Qed.
+Print Assumptions C08_code_decorator_after_any_call.
